@@ -21,7 +21,7 @@ TIMEOUT = 1.0
 _DIGESTS = set()
 _STEPS = [0]
 ACTIONS = ['open', 'open_rej', 'open_ws', 'close_post', 'disconnect_api', 'ws_close', 'vanish',
-           'poll', 'upgrade', 'half_upgrade', 'save', 'tick', 'bad_post']
+           'poll', 'upgrade', 'half_upgrade', 'save', 'tick', 'bad_post', 'open_ws_dropped']
 # second pass: histories that start in the state "first PING is outstanding" (short heartbeat)
 ACTIONS2 = ['talk', 'vanish', 'poll', 'tick', 'send', 'upgrade', 'half_upgrade', 'pong', 'close_post']
 INTERVAL2 = 2.0
@@ -47,9 +47,21 @@ def first_live(ss):
 
 def apply_action(w, ss, rejected, a):
     s = first_live(ss)
-    if a in ('open', 'open_ws', 'open_rej'):
+    if a in ('open', 'open_ws', 'open_rej', 'open_ws_dropped'):
         if len(ss) + len(rejected) >= 3:
             return False
+        if a == 'open_ws_dropped':
+            # a WebSocket open whose peer is gone before the handshake is answered: if a session was created for it,
+            # it is a session whose client went away
+            n = len([e for e in w.events if e[0] == 'connect'])
+            w.ws(peer.WSQ, fail_accept=True)
+            w.run()
+            ev = [e for e in w.events if e[0] == 'connect']
+            if len(ev) > n:
+                x = Sess(ev[-1][1], 'websocket')
+                x.vanished = True
+                ss.append(x)
+            return True
         if a == 'open':
             sid = peer.sid_of(peer.open_polling(w))
             if sid is None:
